@@ -91,6 +91,20 @@ JOBS.append(dict(name='c02_batch_create_projection', wip=False, est_s=40, timeou
                  functions=['carquet_batch_reader_create', 'resolve_column_name'], unwind=8, level='bounded', min_loop_obligations=0,
                  defines=['CQV_TYPE=1', 'CQV_MEMCPY_EXACT=16', 'CQV_MEMSET_EXACT=64'], unwindset=['memcpy.0:17', 'memset.0:65'],
                  bound='projection length <= 4 entries, file columns <= 6; indices and names symbolic', c19=True, **BC))
+# opening a row group: slot i <- reader of file column projection[i]; projection untouched (bounded in projected columns)
+BO = dict(BC)
+BO['harness'] = 'harness/C02/batch_open.c'
+BO['trusted'] = CR['trusted'] + ['batch_open harness: carquet_reader_get_column / carquet_column_reader_free as assumed contracts (token readers recording row group and column; get_column may fail)']
+JOBS.append(dict(name='c02_batch_open_row_group', wip=False, est_s=40, timeout=600, entry='h_open_row_group',
+                 replace=['carquet_column_read_batch', 'carquet_read_next_page', 'load_next_page'],
+                 functions=['open_row_group_readers'], unwind=8, level='bounded', min_loop_obligations=0,
+                 defines=['CQV_TYPE=1'], bound='<= 3 projected columns; row group index, column indices symbolic', **BO))
+# the accessors the other C02 harnesses restate, on the real file_reader.c (no overlay, loop free)
+JOBS.append(dict(name='c02_reader_getters', prop='C02', wip=False, est_s=20, timeout=600, entry='h_reader_getters', overlays=[],
+                 harness='harness/C02/getters.c', includes=['.', 'src'], loop_contracts=False, extra_sources=['stubs/mem_stubs.c'],
+                 functions=['carquet_column_has_next', 'carquet_column_remaining', 'carquet_reader_schema', 'carquet_reader_num_columns',
+                            'carquet_reader_num_row_groups', 'carquet_reader_num_rows'],
+                 trusted=['none beyond CBMC (accessors are loop free; harness gives them an arbitrary reader state)']))
 BR19 = dict(BR)
 BR19['prop'] = 'C19'
 JOBS.append(dict(name='c19_batch_next_int32', wip=False, est_s=20, timeout=600,
